@@ -389,12 +389,15 @@ pub const WIN_A5: &[f64] = &[0.285714, -0.142857, -0.285714, -0.142857, 0.285714
 
 /// Window sets, simplest first.
 pub fn gen_windows(t: &mut Tape) -> Vec<Vec<f64>> {
-    match t.weighted(&[2, 2, 4, 1, 1]) {
+    match t.weighted(&[4, 4, 8, 2, 2, 1, 1]) {
         0 => vec![WIN_STATIC.to_vec()],
         1 => vec![WIN_STATIC.to_vec(), WIN_D3.to_vec()],
         2 => vec![WIN_STATIC.to_vec(), WIN_D3.to_vec(), WIN_A3.to_vec()],
         3 => vec![WIN_STATIC.to_vec(), WIN_D5.to_vec(), WIN_A5.to_vec()],
-        _ => vec![WIN_STATIC.to_vec(), WIN_D3.to_vec(), WIN_A5.to_vec()],
+        4 => vec![WIN_STATIC.to_vec(), WIN_D3.to_vec(), WIN_A5.to_vec()],
+        // the widest window need not be the last one
+        5 => vec![WIN_STATIC.to_vec(), WIN_D5.to_vec(), WIN_A3.to_vec()],
+        _ => vec![WIN_STATIC.to_vec(), WIN_D5.to_vec()],
     }
 }
 
@@ -719,15 +722,28 @@ pub fn gen_voice(t: &mut Tape, o: GenOpts) -> VoiceSpec {
             }
             v
         });
+        // rare but supported: GV on the low-pass stream as well
+        let lpf_gv = t.chance(0.25);
+        let lpf_gv_model = if lpf_gv {
+            let vars: Vec<f64> = (0..lpf_len).map(|k| static_var(&lpf_model, lpf_len, k)).collect();
+            Some(gen_model(t, "gv_lpf", &[2], lpf_len * 2, 2, usize::MAX, |t, _| {
+                let means: Vec<f32> = vars.iter().map(|v| (v * t.uniform(0.5, 1.5)).max(1e-8) as f32).collect();
+                let mut v = means.clone();
+                v.extend(means.iter().map(|m| (0.3 * m) * (0.3 * m)).map(|x| x.max(1e-16)));
+                v
+            }))
+        } else {
+            None
+        };
         streams.push(StreamSpec {
             name: "LPF".to_string(),
             vector_length: lpf_len,
             is_msd: false,
-            use_gv: false,
+            use_gv: lpf_gv,
             options: vec![],
             windows: lpf_windows,
             model: lpf_model,
-            gv: None,
+            gv: lpf_gv_model,
         });
     }
 
